@@ -267,7 +267,9 @@ class Normalizer(object):
                            'greater_equal': 'GtE'}[name], args[0], args[1])
         if name in ('logical_and', 'logical_or') and len(args) == 2 and not kws:
             return (name[8:],) + tuple(sorted(args, key=_key))
-        if name is None:
+        if name is None or ('.' in d and d.split('.')[0] not in MODULE_ROOTS):
+            # method call on a local object: keep the receiver as an expression (so that it can be
+            # renamed / inlined)
             return ('call', self.n(e.func), tuple(args), kws)
         return ('call', name, tuple(args), kws)
 
